@@ -50,6 +50,8 @@ def check(run):
                      'emptiness', 3)
     R.rule('C02.alias', 'what the coroutine receives and what is yielded never aliases the reused receive buffer (a '
                         'unit would otherwise change with later reads)', 6)
+    from .common import lazy_pipeline
+    lazy_pipeline(R, 'C02.P3')
     p1(R)
     C10.limit(R, RID='C02.P1b')
     C05.track(R, RID='C02.P2')
